@@ -13,7 +13,7 @@ static std::map<std::string, std::pair<int, int>> LAB;   // label -> (kind, var)
 static void L(const char* l, int k, int v) { LAB[l] = {k, v}; }
 int main(int argc, char** argv) {
     if (argc < 5) return 2;
-    L("S1",K_LOAD,1);L("A1",K_LOAD,2);L("A2",K_LOAD,2);L("A3",K_CAS,2);L("S_h",K_LOAD,0);L("S_c1",K_STORE,0);L("S_c2",K_STORE,1);L("S_c3",K_LOAD,2);L("S_c4",K_STORE,2);
+    L("S1",K_LOAD,1);L("A1",K_LOAD,2);L("A2",K_LOAD,2);L("A3",K_CAS,2);L("S_h",K_LOAD,0);L("S_cl",K_LOAD,1);L("S_c1",K_STORE,0);L("S_c2",K_STORE,1);L("S_c3",K_LOAD,2);L("S_c4",K_STORE,2);
     L("S_tail",K_STORE,1);L("S_pub",K_LOAD,2);L("S_pub2",K_STORE,2);L("G0",K_LOAD,2);L("G0b",K_LOAD,1);L("G1",K_RMW,1);L("G2",K_LOAD,0);L("B1",K_LOAD,2);L("B2",K_LOAD,2);L("B3",K_CAS,2);
     L("G3",K_LOAD,0);L("G4",K_STORE,1);L("G5",K_STORE,0);L("G6",K_STORE,2);L("G7",K_LOAD,2);L("G8",K_STORE,2);
     L("E1",K_STORE,0);L("E2",K_STORE,1);L("E3",K_STORE,2);L("E5",K_STORE,1);L("K7",K_STORE,0);
